@@ -1,4 +1,4 @@
 #!/bin/bash
 # every stored seeded change against the check of its property (scratch copies of /repo HEAD); 4 at a time
 cd /verif
-ls seeded | xargs -P 4 -I{} sh -c 'id=$(echo {} | cut -d- -f1); r=$(notes/eval_seed.sh $id /verif/seeded/{}/patch.diff 2>&1 | grep "^== " ); echo "{} $r"' | sort
+ls seeded | xargs -P ${PAR:-4} -I{} sh -c 'id=$(echo {} | cut -d- -f1); r=$(notes/eval_seed.sh $id /verif/seeded/{}/patch.diff 2>&1 | grep "^== " ); echo "{} $r"' | sort
